@@ -5,6 +5,7 @@ CONSTANTS
   Quarters = {0, 1, 2, 4}
   Kinds = {"Scan", "Scanner", "MapScan", "SliceMap"}
   ManualQuarters = {1}
+  Plans <- PlansSingle
 INVARIANTS TypeOK
 PROPERTIES Terminates
 CHECK_DEADLOCK FALSE
